@@ -2,7 +2,8 @@
 import vlib
 from vlib import Job
 
-LEVEL = ('cif_value_parse_numb is compared, for ALL strings shorter than MAXT code units, with a 20-line recogniser of the CIF numeric syntax written '
+LEVEL = ('The rounding decision helpers is_zero / compare_half are under contract (unbounded in the number of bignum words up to MAXW, loop closed by an invariant). '
+         'cif_value_parse_numb is compared, for ALL strings shorter than MAXT code units, with a 20-line recogniser of the CIF numeric syntax written '
          'from the property statement (bounded: loops unwound, unwinding assertions on); memory safety and absence of signed overflow are '
          'obligations of the same run.')
 UNDECIDED = ['correct rounding of to_double / to_digits (base-10^9 bignum arithmetic with frexp/ldexp/log10: multiply/divide chains are beyond '
@@ -13,6 +14,12 @@ UNDECIDED = ['correct rounding of to_double / to_digits (base-10^9 bignum arithm
 def jobs():
     T = ['value.c']
     return [
+        Job('is_zero', 'value_h.c', entry='harness_is_zero', enforce='is_zero', tus=T, defines={'MAXW': 6, 'MAXL': 6, 'MAXT': 8}, thorough_defines={'MAXW': 16},
+            loops=1, reach=['zero', 'nonzero'], min_obligations=10, timeout=900,
+            clauses=['1 exactly when check_value and every later bignum word up to lsd are zero']),
+        Job('compare_half', 'value_h.c', entry='harness_compare_half', enforce='compare_half', replace=['is_zero'], tus=T, defines={'MAXW': 6, 'MAXL': 6, 'MAXT': 8},
+            thorough_defines={'MAXW': 16}, reach=['tie', 'above', 'below'], min_obligations=10, timeout=900,
+            clauses=['sign of (tail - half): the tie / above / below decision on which round-half-even in to_double / to_digits rests']),
         Job('parse_numb_bounded', 'value_h.c', entry='harness_parse_numb_bounded', tus=T, defines={'MAXT': 8, 'MAXL': 6}, thorough_defines={'MAXT': 12},
             no_loop_contracts=True, unwind=14, bounded='all strings of fewer than MAXT (8 quick / 12 thorough) code units, every loop unwound completely',
             reach=['accepted', 'refused'], min_obligations=50, timeout=1500, mem_gb=16, replace=['cif_value_clean'],
